@@ -252,7 +252,8 @@ func NewPreamble() *Preamble {
 	p.Fun("str_at", "(Str (_ BitVec 64)) (_ BitVec 8)")
 	p.Fun("str_lt", "(Str Str) Bool")
 	p.Fun("str_sub", "(Str (_ BitVec 64) (_ BitVec 64)) Str")
-	p.Fun("rid", "(Ref) Int")
+	p.funs["rid"] = "(define-fun-rec rid ((r Ref)) Int (ite ((_ is mkref) r) (rid_ r) (ite ((_ is sub) r) (rid (sub_p r)) (rid (elem_p r)))))"
+	p.funOrder = append(p.funOrder, "rid")
 	p.Fun("bseq", "((Array (_ BitVec 64) (_ BitVec 8)) (_ BitVec 64) (_ BitVec 64)) Bytes")
 	p.Fun("blen", "(Bytes) Int")
 	p.Fun("cat", "(Bytes Bytes) Bytes")
